@@ -163,6 +163,24 @@ fn main() {
         idx += 1;
     }
 
+    // pool K: corpus/C07 — fixed shapes, every flag line one run
+    {
+        let dir = std::path::Path::new(&std::env::var("VERIF_DIR").unwrap_or_else(|_| "/verif".into())).join("corpus/C07");
+        let mut files: Vec<std::path::PathBuf> = std::fs::read_dir(&dir).map(|d| d.filter_map(|e| e.ok()).map(|e| e.path()).filter(|p| p.extension().is_some_and(|e| e == "hpp")).collect()).unwrap_or_default();
+        files.sort();
+        for f in files {
+            let text = std::fs::read_to_string(&f).unwrap_or_default();
+            for (k, line) in text.lines().filter_map(|l| l.strip_prefix("// bindgen-flags:")).enumerate() {
+                let mut flags: Vec<String> = line.split_whitespace().map(|x| x.trim_matches('"').to_string()).collect();
+                flags.push("--".into());
+                flags.extend(["-x".to_string(), "c++".into(), "-std=c++14".into()]);
+                let case = Case { label: format!("corpus:{}:{k}", f.file_name().unwrap().to_string_lossy()), flags, header_text: Some(text.clone()) };
+                run_case(&scratch, idx, &case, args.seed, &mut st);
+                idx += 1;
+            }
+        }
+    }
+
     // pool B: generated declaration graphs, with the re-ordering experiment
     let n_prog = if thorough { 700 } else { 120 };
     for p in 0..n_prog {
